@@ -200,7 +200,10 @@ def case_schedule_wrap(spec, cov, out):
 
 
 # ------------------------------------------------------------------------------------------------ (b) instance pairs
-INTERLEAVINGS = ["B.init-before-A.reset", "B.init+reset-mid-A", "B.step-between-A.steps", "B.close-mid-A", "B.init-before-A.init", "B.full-episode-mid-A"]
+INTERLEAVINGS = ["B.init-before-A.reset", "B.init+reset-mid-A", "B.step-between-A.steps", "B.close-mid-A", "B.init-before-A.init", "B.full-episode-mid-A",
+                 "B.used-and-closed-before-A.init"]
+# in the last one B is finished before A even exists: nothing of B may reach A (this is not the 'live instances share class-level /
+# global state' situation of the known findings, so anything found here gets its own mechanism key)
 
 
 def b_variant(cfg, kind, rnd):
@@ -255,6 +258,9 @@ def run_A(cfg_a, cfg_b, interleaving, acts, seed, shield_rng, cov):
 
     if interleaving == "B.init-before-A.init":
         with_b(b_init)
+    if interleaving == "B.used-and-closed-before-A.init":
+        with_b(lambda: (b_init(), b_reset(), b_steps(8), b_reset(), b_steps(3), B["env"].close()))
+        B.clear()
     A = envdrv.make_env(cfg_a)
     if interleaving == "B.init-before-A.reset":
         with_b(b_init)
@@ -329,6 +335,8 @@ def case_pair(spec, cov, out):
             leaf = leaf_of(d2)
             cls = "class-level-nmne-config" if ("NMNE" in leaf.upper() or cs0 != cs1) and "NMNE" in str(d2).upper() else "other"
             mech = f"instance-B-perturbs-A/{cls}" if cls != "other" else f"instance-B-perturbs-A/other/{leaf}"
+            if inter == "B.used-and-closed-before-A.init":
+                mech = f"finished-earlier-instance-leaks-into-later-one/{cls if cls != 'other' else leaf}"
             msg = (f"A's trajectory changes at step {d2[0]} ({d2[1]}: {str(d2[2])[:300]}) when B ({spec['b_kind']}) is {inter}, even with the global RNGs "
                    f"shielded; class-level state before/after B: {cs0} -> {cs1}")
         out.append(viol(mech, msg, {"gen_seed": spec["gen_seed"], "b_kind": spec["b_kind"], "interleaving": inter, "acts": acts}))
@@ -409,8 +417,15 @@ class Check:
                 # deterministic A (no stochastic scripted agents) isolates non-RNG channels; stochastic A exposes the RNG channel
                 for det in (True, False) if not q else (j % 2 == 0,):
                     knobs = {"include_nmne": True, "capture_nmne": True, "p_random_agent": 0.0 if det else 0.6}
+                    if inter == "B.used-and-closed-before-A.init" and bk == "nmne-flip":
+                        knobs["capture_nmne"] = False  # A's scenario says nothing about NMNE capture, the finished B's did
                     specs.append({"name": f"pair-{inter}-{bk}-{'det' if det else 'sto'}", "kind": "pair", "gen_seed": seed * 1000 + 100 + j, "seed": seed * 100 + j,
                                   "interleaving": inter, "b_kind": bk, "steps": 24 if q else 60, "knobs": knobs, "family": ["routed", "lan", "dmz"][j % 3]})
+        for g in range(4 if q else 12):  # more scenarios for: B captured NMNE and is gone, A's scenario does not mention NMNE capture
+            j += 1
+            specs.append({"name": f"pair-finished-B-nmne-{g}", "kind": "pair", "gen_seed": seed * 1000 + 150 + g, "seed": seed * 100 + j,
+                          "interleaving": "B.used-and-closed-before-A.init", "b_kind": "nmne-flip", "steps": 30 if q else 60,
+                          "knobs": {"include_nmne": True, "capture_nmne": False, "p_random_agent": 0.0}, "family": ["routed", "lan", "dmz"][g % 3]})
         for i, s in enumerate([["shipped", "data_manipulation.yaml"], ["gen", {"seed": seed * 1000 + 7}], ["gen", {"seed": seed * 1000 + 8}],
                                ["folder", "mini_scenario_with_simulation_variation"]]):
             specs.append({"name": f"identity-{i}", "kind": "identity", "src": s, "seed": seed * 10 + i, "episodes": 2 if q else 4, "steps": 12 if q else 40})
